@@ -96,6 +96,8 @@ for line in sys.stdin:
             if j in joblocks:  # the start is aborted: the job lock is given back, then the tokens
                 _verif.emit("h.abort", job=j, proc=me)
                 joblocks.pop(j).release()
+                if cmd.get("gap"):      # (the threads of other schedulers that wait for the job lock get it now)
+                    time.sleep(cmd["gap"])
             locks.pop(j).release()
             reply(ok=True)
         elif op == "startjob":
@@ -108,6 +110,13 @@ for line in sys.stdin:
                 time.sleep(0.005)
             jobs[j] = p
             reply(ok=True, pid=p.pid)
+        elif op == "reap":
+            if j in jobs:
+                try:
+                    jobs[j].wait(timeout=5)
+                except Exception:
+                    pass
+            reply(ok=True)
         elif op == "status":
             reply(ok=True, available=tok.available, cache=sorted(tok.cache), status={k: d.currentstatus.name for k, d in deps.items()})
         elif op == "check":
